@@ -164,4 +164,19 @@ theorem mont_as {A O RRv : Nat} (h : O * 2 ^ 261 % ell = A * RRv % ell) (hRR : R
   apply mul_right_cancel₀ two_pow_ne_zero
   rw [e]; ring
 
+theorem list18_of_length {l : List Nat} (h : l.length = 18) : ∃ o0 o1 o2 o3 o4 o5 o6 o7 o8 o9 o10 o11 o12 o13 o14 o15 o16 o17, l = [o0, o1, o2, o3, o4, o5, o6, o7, o8, o9, o10, o11, o12, o13, o14, o15, o16, o17] := by
+  obtain ⟨a, t, rfl, ht⟩ := list_of_length_succ h
+  obtain ⟨o0, o1, o2, o3, o4, o5, o6, o7, o8, o9, o10, o11, o12, o13, o14, o15, o16, rfl⟩ := list17_of_length ht
+  exact ⟨a, o0, o1, o2, o3, o4, o5, o6, o7, o8, o9, o10, o11, o12, o13, o14, o15, o16, rfl⟩
+
+/-- one Montgomery reduction of `a·R` gives `a` -/
+theorem mont_R {A O Rv : Nat} (h : O * 2 ^ 261 % ell = A * Rv % ell) (hR : Rv = 2 ^ 261 % ell)
+    (hO : O < ell) : O = A % ell := by
+  apply nat_of_zmod_lt hO
+  have e := zmod_of_nat_mod h
+  have eR : (Rv : ZMod ell) = 2 ^ 261 := by
+    rw [hR, ZMod.natCast_mod, Nat.cast_pow, Nat.cast_ofNat]
+  rw [Nat.cast_mul, Nat.cast_pow, Nat.cast_ofNat, Nat.cast_mul, eR] at e
+  exact mul_right_cancel₀ two_pow_ne_zero e
+
 end Dalek.Proofs.Scalar29
